@@ -627,7 +627,9 @@ class Array(metaclass=MetaArray):
     def _update(self, value):
         if is_integer(value):
             ll = value
-            fits = len(self) == ll
+            # an integer stands for the dynamic dimension, not the item count
+            shape = [ll if nn is None else nn for nn in self.__class__._shape]
+            fits = tuple(shape) == tuple(self._shape)
         else:
             ll = len(value)
             shape = get_shape_from_array(value, len(self._shape))
